@@ -112,6 +112,9 @@ func report(prop, tier string, seed int, verifDir string, results []*FuncResult,
 	replayDir := filepath.Join(verifDir, "replays", prop)
 	os.RemoveAll(replayDir)
 	os.MkdirAll(replayDir, 0o755)
+	if sweepEnabled {
+		templateSweep = sweepTemplates(verifDir, prop)
+	}
 
 	var all []*Obligation
 	var functions, outside []string
@@ -240,6 +243,19 @@ func report(prop, tier string, seed int, verifDir string, results []*FuncResult,
 			exit = 1
 		}
 	}
+	// thorough tier: property-level templates on the real code (cross-check only)
+	for _, sw := range templateSweep {
+		if sw.Outcome != "REPRODUCED" {
+			continue
+		}
+		name := prop + "/sweep/" + sw.Template
+		if fd := matchFinding(fds, prop, name); fd != nil {
+			lines = append(lines, fmt.Sprintf("KNOWN-FINDING: property=%s %s %s", prop, name, fd.Rest))
+			continue
+		}
+		lines = append(lines, fmt.Sprintf("VIOLATION property=%s replay=%s obligation=%s", prop, sw.ReplayFile, name))
+		exit = 1
+	}
 	sort.Strings(lines)
 	for _, l := range lines {
 		fmt.Println(l)
@@ -299,6 +315,7 @@ func report(prop, tier string, seed int, verifDir string, results []*FuncResult,
 		"vacuity":                    map[string]any{"cover_queries": nCover, "cover_sat": nCoverSat, "rule": "requires+assumed facts must be satisfiable on a path to a return; each loop invariant must be satisfiable at its header; unsat is reported as a failed obligation"},
 		"bounded_standins":           standinReps,
 		"not_decided":                notDecided,
+		"template_sweep":             templateSweep,
 		"explanation":                "contract-based deductive verification: every obligation is a self-contained SMT-LIB query generated from /repo's SSA on this run; discharged = unsat",
 	}
 	ev := evidence{PropertyID: prop, Tier: tier, Seed: seed, Level: "proof", Coverage: cov, Assumptions: assumptions, WallS: round3(wall), Violations: boolToInt(exit != 0)}
@@ -326,6 +343,10 @@ func boolToInt(b bool) int {
 	}
 	return 0
 }
+
+// templateSweep: results of the thorough-tier template sweep (set by main).
+var templateSweep []sweepResult
+var sweepEnabled bool
 
 type standinResult struct {
 	Name     string
